@@ -837,4 +837,143 @@ Section LdaProofs.
     induction ops as [|o ops IH]; intros st Hinv Hh; simpl; auto.
     destruct Hh as [Hok Hh]. destruct (step_inv st o Hinv Hok) as [Hinv' Ha]. apply IH; auto.
   Qed.
+
+  (* ================================================================ reuse on the state *)
+  Definition sel_db (st : @state F) (sym herm : bool) (t : Z) : list pair :=
+    if adjoint_mode sym herm t then s_dbH st else s_dbN st.
+
+  Theorem solve_reuse st c A sym herm crhs isvec RHS X0 t :
+    state_inv st -> s_A st = Some (c, A) -> s_sym st = Some sym -> s_herm st = Some herm ->
+    trans_valid t = true -> Forall (fun r => length r = length A) RHS ->
+    (c || crhs = true \/ Forall (fun p => p_tag p = false) (sel_db st sym herm t)) ->
+    Forall (fun rhs => span (length A) (map p_b (sel_db st sym herm t))
+                            (pn (s_mask st) (if conj_mode sym herm t then vconj rhs else rhs))) RHS ->
+    exists res, snd (solve inner st crhs isvec RHS X0 t) = inr res /\ r_call res = None /\
+                fst (solve inner st crhs isvec RHS X0 t) = st.
+  Proof.
+    intros Hinv EA Es Eh Ht HR Hnar Hsp. unfold state_inv in Hinv. rewrite EA in Hinv.
+    destruct Hinv as (n & sym' & herm' & W & Es' & Eh' & Htr & Dc & Hin & HdN & HdH).
+    rewrite Es in Es'. rewrite Eh in Eh'. injection Es' as <-. injection Eh' as <-.
+    assert (En : length A = n) by apply W. rewrite En in *.
+    unfold solve. rewrite Ht, EA, Es, Eh. cbn [negb]. unfold sel_db in *.
+    set (cm := conj_mode sym herm t) in *. set (am := adjoint_mode sym herm t) in *.
+    set (RHS' := if cm then map vconj RHS else RHS).
+    assert (HR' : Forall (fun r => length r = n) RHS').
+    { unfold RHS'. destruct cm; auto. apply Forall_forall. intros r0 Hr. apply in_map_iff in Hr as [r1 [<- Hr0]].
+      rewrite vconj_length. rewrite Forall_forall in HR. auto. }
+    assert (Hsp' : forall db, Forall (fun rhs => span n (map p_b db) (pn (s_mask st) (if cm then vconj rhs else rhs))) RHS ->
+                   Forall (fun rhs => span n (map p_b db) (pn (s_mask st) rhs)) RHS').
+    { intros db H. unfold RHS'. destruct cm; auto. apply Forall_forall. intros r0 Hr.
+      apply in_map_iff in Hr as [r1 [<- Hr0]]. rewrite Forall_forall in H. auto. }
+    destruct am eqn:Eam.
+    - destruct (do_solve_reuse n (mH A) c (s_mask st) (s_dbH st) true (inner A true) crhs isvec RHS' X0
+                  (wfm_mH n A W) (Decoupled_mH n A _ W Dc) HdH HR' Hnar (Hsp' _ Hsp)) as [E1 E2].
+      destruct (do_solve (mH A) c (s_mask st) (s_dbH st) true (inner A true) crhs isvec RHS' X0) as [[X db'] cl].
+      cbn [fst snd] in *. subst cl db'. eexists. split; [reflexivity | split; [reflexivity |]].
+      destruct st as [a1 a2 a3 a4 a5 a6]; cbn [s_A s_sym s_herm s_mask s_dbN s_dbH] in *; subst a1 a2 a3; reflexivity.
+    - destruct (do_solve_reuse n A c (s_mask st) (s_dbN st) false (inner A false) crhs isvec RHS' X0
+                  W Dc HdN HR' Hnar (Hsp' _ Hsp)) as [E1 E2].
+      destruct (do_solve A c (s_mask st) (s_dbN st) false (inner A false) crhs isvec RHS' X0) as [[X db'] cl].
+      cbn [fst snd] in *. subst cl db'. eexists. split; [reflexivity | split; [reflexivity |]].
+      destruct st as [a1 a2 a3 a4 a5 a6]; cbn [s_A s_sym s_herm s_mask s_dbN s_dbH] in *; subst a1 a2 a3; reflexivity.
+  Qed.
+
+  (* ================================================================ the omitted normalisation *)
+  Lemma conj_nonzero (s : F) : s <> 0 -> fconj s <> 0.
+  Proof. intros Hs E. apply Hs. rewrite <- (conj_invol s), E. apply conj_0. Qed.
+  Lemma hdot_vscale_r (s : F) v b : hdot v (vscale s b) = fconj s * hdot v b.
+  Proof.
+    unfold hdot, vconj, vscale. rewrite map_map.
+    assert (E : map (fun z => fconj (s * z)) b = vscale (fconj s) (map fconj b)).
+    { unfold vscale. rewrite map_map. apply map_ext. intros z. apply conj_mul. }
+    rewrite E. apply vdot_vscale_r.
+  Qed.
+  (* the code stores (x/|b|, b/|b|); every use of a stored pair is through one of the three expressions below,
+     which do not change when x and b are scaled by the same non-zero factor s *)
+  Theorem lda_normalisation_irrelevant (s : F) v x b : s <> 0 -> nrm2 b <> 0 ->
+    vscale (hdot v (vscale s b) / nrm2 (vscale s b)) (vscale s b) = vscale (hdot v b / nrm2 b) b /\
+    vscale (hdot v (vscale s b) / nrm2 (vscale s b)) (vscale s x) = vscale (hdot v b / nrm2 b) x /\
+    (vscale (hdot v (vscale s x) / nrm2 (vscale s x)) (vscale s x) =
+      vscale (hdot v x / nrm2 x) x \/ nrm2 x = 0).
+  Proof.
+    intros Hs Hb. pose proof (conj_nonzero s Hs) as Hcs.
+    assert (Hc : forall w, nrm2 w <> 0 -> forall u, (hdot u (vscale s w) / nrm2 (vscale s w)) * s = hdot u w / nrm2 w).
+    { intros w Hw u. rewrite !nrm2_hdot, !hdot_vscale_r, hdot_vscale_l. rewrite nrm2_hdot in Hw. field. auto. }
+    split; [| split].
+    - rewrite vscale_vscale, Hc; auto.
+    - rewrite vscale_vscale, Hc; auto.
+    - destruct (fis0 (nrm2 x)) eqn:E.
+      + right. apply is0_spec; auto.
+      + left. apply is0_false in E. rewrite vscale_vscale, Hc; auto.
+  Qed.
+
+  (* the 2x2 swap matrix (used by the non-vacuity example) *)
+  Lemma swap_mv (a c : F) : mv [[f0; f1]; [f1; f0]] [a; c] = [c; a].
+  Proof. unfold mv. simpl. f_equal; [ring | f_equal; ring]. Qed.
 End LdaProofs.
+
+(* ==================================================================== concrete instances over Qc[i] *)
+From Coq Require Import QArith Qcanon.
+From Pymoto Require Import Base.QI Base.QIP.
+Close Scope Qc_scope.
+Close Scope Q_scope.
+Open Scope nat_scope.
+Section Concrete.
+  (* --- exhaustive structure check: on ALL 0/1 matrices of size n <= 3 (2 + 16 + 512) the detected mask is
+     exactly the set of dofs with non-zero diagonal whose row and column vanish off the diagonal *)
+  Definition dec_spec (A : mat C) (n i : nat) : bool :=
+    negb (Cis0 (entry A i i)) &&
+    forallb (fun j => (j =? i)%nat || (Cis0 (entry A i j) && Cis0 (entry A j i))) (seq 0 n).
+  Fixpoint all_rows (k : nat) : list (vec C) :=
+    match k with O => [[]] | S k' => flat_map (fun v => [C0 :: v; C1 :: v]) (all_rows k') end.
+  Fixpoint all_mats (rows : list (vec C)) (k : nat) : list (mat C) :=
+    match k with O => [[]] | S k' => flat_map (fun M => map (fun r => r :: M) rows) (all_mats rows k') end.
+  Definition mats01 (n : nat) : list (mat C) := all_mats (all_rows n) n.
+  Fixpoint bl_eqb (a b : list bool) : bool :=
+    match a, b with [], [] => true | x :: a', y :: b' => Bool.eqb x y && bl_eqb a' b' | _, _ => false end.
+  Definition detect_exact (n : nat) (A : mat C) : bool :=
+    bl_eqb (get_diagonal_indices A) (map (dec_spec A n) (seq 0 n)).
+  Lemma diag_detect_exact_n3 :
+    forallb (fun n => forallb (detect_exact n) (mats01 n)) [1; 2; 3]%nat = true /\
+    map (fun n => length (mats01 n)) [1; 2; 3]%nat = [2; 16; 512]%nat.
+  Proof. split; vm_compute; reflexivity. Qed.
+
+  (* --- an inner solver for concrete runs: exact Gauss-Jordan elimination *)
+  Definition inner_gauss (A : mat C) (adj : bool) (R : list (vec C)) (X0 : option (list (vec C))) : list (vec C) :=
+    match gauss_solve (if adj then mH A else A) R with Some X => X | None => [] end.
+
+  (* --- class change: flags cached from a symmetric first matrix, then a non-symmetric matrix, trans = 'T' *)
+  Definition cc_A1 : mat C := [[rz 2; rz 1]; [rz 1; rz 3]].
+  Definition cc_A2 : mat C := [[rz 2; rz 1]; [rz 0; rz 3]].
+  Definition cc_b : vec C := [rz 1; rz 1].
+  Definition cc_answer_solves : bool :=
+    match run inner_gauss (init_state None None)
+              [Update false cc_A1; Update false cc_A2; Solve false true [cc_b] None 1%Z] with
+    | [_; _; Some (inr res)] => match r_x res with [x] => veqb (mv (mtrans cc_A2) x) cc_b | _ => true end
+    | _ => true
+    end.
+  Lemma class_change_wrong : is_symmetric cc_A1 = true /\ is_symmetric cc_A2 = false /\ cc_answer_solves = false.
+  Proof. repeat split; vm_compute; reflexivity. Qed.
+
+  (* --- non-vacuity: a non-trivial history that meets every hypothesis of history_correct.
+     A = [[0,1],[1,0]] is its own inverse, symmetric, real, with zero diagonal (no dof is solved by division) *)
+  Definition nv_A : mat C := [[C0; C1]; [C1; C0]].
+  Definition inner_swap (A : mat C) (adj : bool) (R : list (vec C)) (X0 : option (list (vec C))) : list (vec C) :=
+    map (fun r => mv nv_A r) R.
+  Definition nv_ops : list (@op C) :=
+    [Update false nv_A;
+     Solve false true [[rz 1; rz 2]] None 0%Z;
+     Solve false true [[rz 2; rz 4]] None 1%Z;
+     Solve true false [[cz 0 1; rz 3]; [rz 1; rz 2]] (Some [[rz 1; rz 1]; [rz 1; rz 1]]) 2%Z].
+
+  Lemma nv_swap_ok : forall adj : bool, solve_fn_ok 2 (if adj then mH nv_A else nv_A) (inner_swap nv_A adj).
+  Proof.
+    intros adj R X0 HR. unfold inner_swap.
+    assert (E : (if adj then mH nv_A else nv_A) = nv_A).
+    { destruct adj; [| reflexivity]. apply (proj1 (@mat_eqb_spec C FldC FldLawsC _ _)). vm_compute. reflexivity. }
+    rewrite E. clear E. induction HR as [|r R Hr HR IH]; simpl; constructor; auto.
+    destruct r as [|a [|b [|? ?]]]; simpl in Hr; try discriminate. split.
+    - unfold mv. reflexivity.
+    - unfold nv_A. rewrite (@swap_mv C FldC FldLawsC a b). apply (@swap_mv C FldC FldLawsC b a).
+  Qed.
+End Concrete.
